@@ -2,7 +2,7 @@
    the serializer is called.  The model has one answer per input; the
    implementation is run repeatedly, with permuted map insertion orders,
    interleaved and concurrently, and must give that answer every time. *)
-From WP Require Import Base.Prelude Run.Sx Run.RunFault.
+From WP Require Import Base.Prelude Run.Sx Run.RunSxg Run.RunFault.
 Open Scope N_scope.
 
 Section Conc.
@@ -19,6 +19,7 @@ Section Conc.
   Definition op_conc_shared (args : list sx) : sx :=
     match args with
     | kind :: SL a :: _ =>
+        if fault_taint kind a then unknown_sx else      (* URL outside the decided class *)
         match fault_output kind a with
         | Some r => SL [SZ 1; sx_bytes_R r]
         | None => bad_args
